@@ -21,7 +21,7 @@ ASSERT_HOSTNAME = ["unset", False, "match", "other"]
 FINGERPRINT = ["unset", "sha256", "sha1", "md5", "wrong", "badlen", "sha256-colons-upper"]
 SERVER_HOSTNAME = ["unset", "right", "wrong"]
 CONTEXTS = ["none", "default-like", "no-check-hostname", "verify-none"]
-CA_SOURCE = ["ca_certs", "ca_cert_data", "none", "other_ca_certs", "other_ca_cert_data"]  # other_*: only the second CA is trusted
+CA_SOURCE = ["ca_certs", "ca_cert_data", "none", "other_ca_certs", "other_ca_cert_data", "ca_certs+other_ca_cert_data", "other_ca_certs+ca_cert_data"]  # other_*: only the second CA is trusted
 LEAVES = ["exact", "wildcard", "ip4", "ip6", "cn-only", "other", "multi", "upper-wild"]
 HOSTS = ["good.test", "GOOD.TEST", "good.test.", "a.wild.test", "A.Wild.Test", "a.b.wild.test", "wild.test", "127.0.0.1", "[::1]", "[::1%25lo]", "other.test", "xn--bcher-kva.test"]
 ROUTES = ["direct", "direct", "http-tunnel"]
@@ -49,7 +49,8 @@ def demanded(point: dict[str, typing.Any], leaf: dict[str, typing.Any]) -> tuple
         det["conflict"] = True
     verdicts = []
     if mode != "CERT_NONE":
-        chain_ok = (leaf["issuer"] == "trusted" and point["ca_source"] in ("ca_certs", "ca_cert_data")) or (leaf["issuer"] == "untrusted" and point["ca_source"] in ("other_ca_certs", "other_ca_cert_data"))
+        both = point["ca_source"] in ("ca_certs+other_ca_cert_data", "other_ca_certs+ca_cert_data")  # a file for one CA plus data for the other
+        chain_ok = both or (leaf["issuer"] == "trusted" and point["ca_source"] in ("ca_certs", "ca_cert_data")) or (leaf["issuer"] == "untrusted" and point["ca_source"] in ("other_ca_certs", "other_ca_cert_data"))
         det["chain_ok"] = chain_ok
         verdicts.append("pass" if chain_ok else "fail")
     pin = point["fingerprint"]
@@ -71,7 +72,7 @@ def demanded(point: dict[str, typing.Any], leaf: dict[str, typing.Any]) -> tuple
         det["name"] = name
         det["name_ref"] = ref
         verdicts.append({"accept": "pass", "reject": "fail", "either": "either"}[ref])
-    if point.get("route") == "https-tunnel" and mode != "CERT_NONE" and point["ca_source"] not in ("ca_certs", "ca_cert_data"):
+    if point.get("route") == "https-tunnel" and mode != "CERT_NONE" and point["ca_source"] not in ("ca_certs", "ca_cert_data", "ca_certs+other_ca_cert_data", "other_ca_certs+ca_cert_data"):
         # the TLS leg to the https proxy is verified with the same mode and CA settings and comes first
         det["proxy_leg"] = "fail"
         verdicts.append("fail")
@@ -131,6 +132,12 @@ def build_kwargs(point: dict[str, typing.Any], certs: tlsnet.Certs, leaf: dict[s
         kw["ca_certs"] = certs.other_ca_file
     elif point["ca_source"] == "other_ca_cert_data":
         kw["ca_cert_data"] = certs.other_ca_data
+    elif point["ca_source"] == "ca_certs+other_ca_cert_data":
+        kw["ca_certs"] = certs.ca_file
+        kw["ca_cert_data"] = certs.other_ca_data
+    elif point["ca_source"] == "other_ca_certs+ca_cert_data":
+        kw["ca_certs"] = certs.other_ca_file
+        kw["ca_cert_data"] = certs.ca_data
     return kw
 
 
@@ -244,6 +251,10 @@ def run_point(rec: Recorder, point: dict[str, typing.Any], certs: tlsnet.Certs) 
         if not isinstance(inner, SSLError):
             if det.get("conflict") and isinstance(exc, ValueError):
                 rec.count("conflicting_configuration_valueerror")
+            elif point["pyopenssl"] and "data" in point["ca_source"] and isinstance(exc, (TypeError, ValueError)):
+                # urllib3.contrib.pyopenssl cannot take CA data in this pyOpenSSL version (it fails before any I/O, with
+                # TypeError for str data): a configuration the backend rejects, not a verification outcome
+                rec.count("pyopenssl_ca_cert_data_unusable")
             else:
                 rec.fail(case, "failed-check-not-sslerror", dict(obs, surfaced=type(inner).__name__), f"a failed check surfaced as {type(exc).__name__}: {exc!s:.120}")
                 return
@@ -273,7 +284,9 @@ def run_point(rec: Recorder, point: dict[str, typing.Any], certs: tlsnet.Certs) 
                 rec.count("over_strict_rejection")
                 if not (det.get("conflict") and isinstance(exc, ValueError)):
                     rec.seen("over_strict", {k: point[k] for k in ("leaf", "host", "assert_hostname", "server_hostname", "fingerprint", "ssl_context", "cert_reqs")} | {"exc": f"{type(exc).__name__}: {exc!s:.90}"})
-            if isinstance(exc, Exception) and not isinstance(exc, (HTTPError, ValueError)):
+            if point["pyopenssl"] and "data" in point["ca_source"] and isinstance(exc, TypeError):
+                rec.count("pyopenssl_ca_cert_data_unusable")
+            elif isinstance(exc, Exception) and not isinstance(exc, (HTTPError, ValueError)):
                 rec.fail(case, "non-urllib3-exception", dict(obs, msg=str(exc)[:100]), f"{type(exc).__name__}: {exc!s:.120}")
     if rec.evaluations % 211 == 0:
         rec.sample({"point": point, "reference": verdict, "outcome": obs["exc"] or obs["status"], "origin_bytes": origin_bytes})
